@@ -47,11 +47,16 @@ Act ==
          ev(v) == e.ch \o "|" \o Num(v)
          nexp(x) == IF x \in open2 /\ <<x, e.ch>> \in want
                     THEN (IF x # norigin THEN <<ev(e.v)>> ELSE <<>>) \o <<ev(val[e.ch])>> ELSE <<>>
+         during == e.a = "During" /\ ~e.skipped
+         dexp(x) == IF x \in open2 /\ <<x, e.ch>> \in want THEN <<ev(1 - val[e.ch]), ev(val[e.ch]), ev(1 - val[e.ch])>> ELSE <<>>
      IN
+     \* three changes while a request of e.c is in flight: everybody who listens gets all three, in order (e.c after its response)
+     /\ (during => /\ Report("CarriesNewValue", \A x \in DOMAIN e.seqs : e.seqs[x] = dexp(x))
+                   /\ Report("CarriesNewValue", e.val[e.ch] = 1 - val[e.ch] /\ e.inflight))
      /\ (nested => /\ Report("CarriesNewValue", \A x \in DOMAIN e.seqs : e.seqs[x] = nexp(x))
                    /\ Report("CarriesNewValue", e.mid = e.v /\ e.val[e.ch] = val[e.ch]))
      /\ (pair1 => Report("CarriesNewValue", \A x \in DOMAIN e.seqs : e.seqs[x] = IF x \in open2 /\ <<x, e.ch>> \in want THEN <<ev(e.val[e.ch])>> ELSE <<>>))
-     /\ ((~race /\ ~nested /\ ~pair1) => /\ Report("ExactlyOnce", SetOf(e.got) = expected)
+     /\ ((~race /\ ~nested /\ ~pair1 /\ ~during) => /\ Report("ExactlyOnce", SetOf(e.got) = expected)
                   /\ Report("ExactlyOnce", Len(e.got) = Cardinality(SetOf(e.got))))
      /\ (race => /\ Report("ExactlyOnce", \A x \in listening \ {e.c, e.d} : cnt(x) = (IF changed THEN 1 ELSE 0))
                  /\ Report("ExactlyOnce", SetOf(e.got) \subseteq {key(x) : x \in listening})
